@@ -14,7 +14,8 @@ RULE = ("stateful: ONE set of shared objects (mixture - built-in singleton or sy
         "After EVERY call: deep snapshot of the shared objects and of all built-in Components/Mixtures unchanged; the call's numeric result "
         "bit-identical to the same call repeated immediately, and (quick: a generated third of the calls; thorough: every call) to the same "
         "call executed as the FIRST call of a fresh process (forkserver child that has imported the package and never called it) on arguments "
-        "rebuilt from plain data. non-trivial = >= 2 calls of which one is a process / non-ideal curve / fit with zero points and >= 1 "
+        "rebuilt from plain data; histories carry programmes starting off the initial temperature, temperatures a few mK apart, curve sets "
+        "listed hottest-first. non-trivial = >= 2 calls of which one is a process / non-ideal curve / fit with zero points and >= 1 "
         "fresh-process comparison was made; distinct = SHA-1 of the case JSON (initial objects + call sequence)")
 ASSUMPTIONS = ["'fresh interpreter state' is realised as a new process forked from a forkserver after import of the package (no call made before)",
                "`comments` strings embed datetime.now() and are excluded from comparisons",
